@@ -11,7 +11,7 @@ From SV Require Import Rot.C17Base SM.C17Name SM.C17Rounds SM.C17Subst SM.C17Sit
                        Gen.C17Formulas_gen
                        Rot.C17GeomProofs SM.C17NameProofs SM.C17RoundsProofs SM.C17SubstProofs SM.C17SitesProofs
                        SM.C17FrameProofs SM.C17GlobalProofs SM.C17CacheProofs SM.C17ComposeProofs
-                       SM.C17Whole SM.C17WholeProofs SM.C17PropertyProofs SM.C17Kinds SM.C17KindsProofs.
+                       SM.C17Whole SM.C17WholeProofs SM.C17PropertyProofs SM.C17Kinds SM.C17KindsProofs SM.C17ManifestProofs SM.C17RoundsDyn SM.C17RoundsDynProofs.
 Import ListNotations.
 (* String is imported for the census names; [length] keeps meaning the length of a list *)
 Local Notation length := List.length (only parsing).
@@ -457,6 +457,16 @@ Proof.
   exact (fun all fr body ok => kinds_template_intact all g_collapse_copied_classes fr body g_collapse_statement_kinds ok).
 Qed.
 
+(** *** Round 5: VMM manifests.  `Manifest` is an `Instance` constructed with `Vec()`, `Matrix()` and `FixupStyle.NONE`
+    (obligation `manifest_identity_placement_names_unaltered`: the arguments of the `Instance.__init__` call in
+    `Manifest.__init__`, no override of fixup_name / fixup_key): for every name table passing the named checks no name is
+    altered, and the generated placement arithmetic at (0, I) alters no item of the content. *)
+Theorem c17_manifest_names_unaltered : forall c, cfg_ok c = true -> forall inst name, fixup_name c SNone inst name = Some name.
+Proof. exact manifest_names_unaltered. Qed.
+
+Theorem c17_manifest_content_unaltered : forall D (r : added D), transform D g_arith ident_placement r = r.
+Proof. exact manifest_content_unaltered. Qed.
+
 (** The derivations behind c17_property, for any arithmetic / census / skeleton: a statement that respects the census
     keeps the template's value and the separation (C09's census theorem + frame theorem, one statement at a time) ... *)
 Theorem c17_disciplined_statement_keeps_template : forall all copied, copied_classes_fresh all copied = true ->
@@ -563,4 +573,25 @@ Theorem c17_collapse_cycle_check_rounds_le_files : forall children perm, (forall
   forall limit roots, incl roots univ ->
   l_rounds (loop2 children perm limit (C17Rounds.start roots)) <= S (length univ).
 Proof. exact cycle_check_rounds_le_files. Qed.
+(** *** Round 5: the ancestry check with file names that come from $variables (SM/C17RoundsDyn.v).  A pending instance is a
+    state (file + what the fixup variables hand down), [fl] gives its file, [kids s] the nested instances that collapsing
+    [s] adds, flagged literal / through a $variable; parents are recorded along literal links and reset at the others
+    ([loop3], what collapse_one / collapse_all do today: obligations `nested_instance_parents_extended_on_literal_file_names`,
+    `ancestry_check_before_each_collapse`).  If a literal link belongs to the file ([lit_by_file]: from whatever state a file
+    is collapsed, its literal nested instances are there, with the same file names) then for every state graph, limit, start
+    and iteration order the loop with the check decides like the loop without it on the state graph, with the same rounds
+    and collapses when that one finishes, and never more work: the check never fires on an inclusion that would have ended. *)
+Theorem c17_collapse_cycle_check_exact_with_variable_file_names : forall fl kids, lit_by_file fl kids ->
+  forall perm, (forall l, Permutation.Permutation (perm l) l) -> forall limit roots,
+  l_outcome (loop3 fl kids perm limit (start3 roots)) = l_outcome (loop (children3 kids) limit roots) /\
+  (l_outcome (loop (children3 kids) limit roots) = Done -> loop3 fl kids perm limit (start3 roots) = loop (children3 kids) limit roots) /\
+  l_work (loop3 fl kids perm limit (start3 roots)) <= l_work (loop (children3 kids) limit roots) /\
+  l_rounds (loop3 fl kids perm limit (start3 roots)) <= l_rounds (loop (children3 kids) limit roots).
+Proof. exact dyn_cycle_check_exact. Qed.
+
+(** recording a $variable link like a literal one (the `'$' not in` test dropped) makes a terminating self-inclusion raise *)
+Theorem c17_variable_link_recorded_as_literal_refuted :
+  loop3 countdown_fl countdown_as_literal (fun l => l) 100 (start3 [3]) = (Raise, 2, 1) /\
+  loop (children3 countdown_as_literal) 100 [3] = (Done, 4, 4) /\ ~ lit_by_file countdown_fl countdown_as_literal.
+Proof. exact dyn_chain_recorded_as_literal_refuted. Qed.
 (* END round 4 - cycle repair ====================================================================================== *)
